@@ -37,6 +37,7 @@ IGNMAP = {"sources": {"/cells/*/source": True}, "outputs": {"/cells/*/outputs": 
           "metadata": {"/metadata": True, "/cells/*/metadata": True, "/cells/*/outputs/*/metadata": True},
           "id": {"/cells/*/id": True},
           "details": {"/cells/*": ["execution_count"], "/cells/*/outputs/*": ["execution_count"]}}
+LEAFMAP = dict(IGNMAP, details={"/cells/*/execution_count": True, "/cells/*/outputs/*/execution_count": True})
 BASES = []
 
 
@@ -48,7 +49,9 @@ def make_bases():
             {"cid": 1, "fam": 1, "kind": "code", "src": 0, "outs": 2, "md": 1, "ec": 1, "att": 0},
             {"cid": 2, "fam": 2, "kind": "markdown", "src": 0, "outs": 0, "md": 2, "ec": 0, "att": 1},
             {"cid": 3, "fam": 3, "kind": "code", "src": 0, "outs": 4, "md": 0, "ec": 2, "att": 0},
-            {"cid": 4, "fam": 7, "kind": "code", "src": 0, "outs": 3, "md": 0, "ec": 1, "att": 0}]}
+            {"cid": 4, "fam": 7, "kind": "code", "src": 0, "outs": 3, "md": 0, "ec": 1, "att": 0},
+            # never executed: execution counts are null
+            {"cid": 5, "fam": 5, "kind": "code", "src": 0, "outs": 2, "md": 0, "ec": 0, "att": 0}]}
         out.append(concretize.concrete(ab))
     return out
 
@@ -101,11 +104,12 @@ def vary(nb, differing, variant):
         b.cells[variant % len(b.cells)]["id"] = "renamed-%d" % variant
     if "details" in differing:
         c = code[variant % len(code)]
-        c.execution_count = (c.execution_count or 0) + 10
+        cleared = variant % 3 == 1 and c.execution_count is not None        # int -> null (outputs cleared and re-run state lost)
+        c.execution_count = None if cleared else (c.execution_count or 0) + 10      # null -> int for never executed cells
         for c in code:
             for o in c.outputs:
                 if o.output_type == "execute_result":
-                    o.execution_count = (o.execution_count or 0) + 10
+                    o.execution_count = None if (cleared and o.execution_count is not None) else (o.execution_count or 0) + 10
     return b
 
 
@@ -146,14 +150,15 @@ def evaluate(task):
                 with io.open(os.path.join(os.environ["JUPYTER_CONFIG_DIR"], "nbdime_config.json"), "w") as f:
                     json.dump({"Diff": {"Ignore": first}}, f)
                 with io.open("nbdime_config.json", "w") as f:
-                    json.dump({"NbDiff": {"Ignore": second}}, f)
+                    # an explicitly empty mapping in the section the other file fills (what `--config` prints) adds nothing
+                    json.dump(dict({"NbDiff": {"Ignore": second}}, **({"Diff": {"Ignore": {}}} if k % 2 else {})), f)
             else:
                 with io.open("nbdime_config.json", "w") as f:
                     json.dump({"NbDiff": {"Ignore": m}}, f)
-        elif ch == "ignoremap":
+        elif ch in ("ignoremap", "leafmap"):
             m = {}
             for c in SHORT:
-                for p, v in IGNMAP[c].items():
+                for p, v in (IGNMAP if ch == "ignoremap" else LEAFMAP)[c].items():
                     if c in ignored:
                         m[p] = v
                     elif k % 2 and v is True:
@@ -191,7 +196,7 @@ def run():
     r = tlc.run("IgnoreMatrix", CFG, workers=1, timeout=900, name="IgnoreMatrix", xmx="4g")
     if r.invariant_violated or r.error:
         raise tlc.TLCError("IgnoreMatrix: %s\n%s" % (r.error, r.out[-1500:]))
-    chk.add_model(r, "IgnoreMatrix 64 x 64 x 6 channels")
+    chk.add_model(r, "IgnoreMatrix 64 x 64 x 7 channels")
     seen, cases = set(), []
     for c in r.json_lines("CASE"):
         for f in ("ignored", "differing"):
